@@ -32,6 +32,12 @@ FIELDS_HELPER_EXPRS = [
     "(any(f.name == 'n0' for f in fields('varint')) or r.n > 5)", "(not fields('float'))",
 ]
 
+LIST_HELPER_EXPRS = [
+    "field_equals(r, ['sl'], ['a'])", "field_contains(r, ['sl', 's'], ['hello'])", "field_equals(r, ['s', 'sl'], ['foo'], nocase=True)",
+    "(lower(r.sl) == ['a'])", "(upper(r.sl) != [])", "('a' in lower(r.sl))", "(field_contains(r, ['sl'], ['A']) or ('A' in r.sl))",
+    "(('Hello World' in r.sl) and field_equals(r, ['sl'], ['zzz']))", "field_regex(r, ['sl'], 'a')",
+]
+
 ENGINE_SENSITIVE_EXPRS = [
     "((r.opt < 'b') or (r.s2 not in ['zzz']))", "((r.opt >= 'a') or (r.extra not in ['zzz']))",
     "((r.s2 not in ['zzz']) or (r.opt < 'b'))", "((r.opt < 'b') or (r.m not in [999]))",
@@ -72,6 +78,9 @@ def case_strategy(draw):
         # compiled one, `not in` on a missing field differs): whichever engine a selector object uses, it must use
         # it for every record
         expr = {"src": draw(st.sampled_from(ENGINE_SENSITIVE_EXPRS)), "features": ["engine-sensitive"]}
+    elif draw(st.integers(0, 11)) == 0:
+        # helpers handed the record's own list values: whatever they answer, the record stays as it was
+        expr = {"src": draw(st.sampled_from(LIST_HELPER_EXPRS)), "features": ["helper-on-list-field"]}
     elif draw(st.integers(0, 9)) == 0:
         # the interpreted engine's fields(<type>) helper answers per record type: a good probe for state that a
         # selector object carries from one record to the next (the compiled engine does not have the helper)
@@ -148,6 +157,7 @@ def check(case, ctx):
         if exc0 is not None:
             ctx.cls("reader-raised-without-selector:" + type(exc0).__name__)
             return
+        untouched = [observe(r) for r in plain]  # before any selector has seen the records
         # post-filter with a fresh selector
         f = fresh(form, src)
         kept, exc_after = [], None
@@ -172,7 +182,19 @@ def check(case, ctx):
                     raise Violation("post-filter/differs-from-reference", "%s [%s]: match() gives %r, Python evaluation %r "
                                     "for a %s record with fields %r" % (src, form, m, ref.value, r._desc.name,
                                                                          [n for _, n in r._desc.get_field_tuples()]))
+        for i, r in enumerate(plain):
+            if observe(r) != untouched[i]:
+                raise Violation("purity/record-modified", "%s [%s]: matching changed record %d: %s"
+                                % (src, form, i, diff(untouched[i], observe(r))))
         during, exc_during = iterate(lambda: RecordReader(url, selector=make_sel(form, src)))
+        # what a reader yields under a selector is the stored record, not one the selector has worked on
+        by_obs = {}
+        for o in untouched:
+            by_obs[o] = by_obs.get(o, 0) + 1
+        for r in during:
+            if observe(r) not in by_obs:
+                raise Violation("reader/%s/yields-modified-record" % adapter, "%s [%s]: the reader yielded a record that is not "
+                                "among the stored ones: %r" % (src, form, r))
         if 0 < len(kept) < len(plain):
             ctx.nontriv()
         ctx.cls("kept:%s" % ("none" if not kept else "all" if len(kept) == len(plain) else "some"))
